@@ -764,7 +764,7 @@ theorem move_books (ops : FloatOps) (s : St) (ctx : Ctx) (l : Locker) (s' : St) 
   omega
 
 
-/-! ## with the repair of D35 the time budget holds for ALL histories -/
+/-! ## with the repair of D45 the time budget holds for ALL histories -/
 
 theorem accrue_coll (s : St) (ctx : Ctx) (l : Locker) (pw : Option Int) (s1 : St) (h : accrue s ctx l pw = .ok s1) :
     s1.coll = s.coll ∧ s1.wl = s.wl := by
